@@ -203,16 +203,16 @@ def replay(ctx, case):
     return c05_eval.replay(ctx, case)
 
 MANIFEST = dict(
-    text=("Proof: (i) McxVchainDirty general branch, exact mode, one target, k=j+3 controls for every j: the Gallina model "
-          "McxModel.general denotes, for every state of controls, ancillas and target, the permutation 'flip target iff all "
-          "controls are 1' (C05_vchain_exact: ancillas restored whatever they hold); relative-phase mode = that permutation times a "
-          "+-1 diagonal (C05_vchain_relphase); Lemma-9 composition used by LinearMcx (C05_lemma9, abstract); (ii) majority: the "
-          "degree list is translated from qclib/gates/majority.py on every run and proved, for all n and all inputs, to flip the "
-          "target iff at least half of the controls are 1 (C05_majority, C05_majority_degrees). Tie: gate-by-gate comparison, "
-          "inside Coq, of the model with the flattened definitions for k up to 16/48 (vchain: all flags, 1-3 targets, patterns) "
-          "and 24/64 (LinearMcx) - instances of >100 qubits that no simulator reaches; translated degree list executed against "
-          "CPython for n<=64/128. Direct evaluation by random-state evolution supplies replays. PARTIAL: control patterns, "
-          "multi-target fans, the <=3-control Qiskit branches and the LinearMcx wiring are corresponded and evaluated, not proved."),
-    note="Modelled, not verified: Qiskit's x/cx/ccx/c3x/c4x/mcx/u gates and circuit composition (append of sub-circuits on qubit lists).",
-    technique="Coq proof (monomial-operator sandwich induction; Pascal/triangular induction) + translator-regenerated model + gate-list correspondence in Coq (vm_compute) + numpy state evolution",
+    text=("Proof: (i) McxVchainDirty, general branch, exact mode, one target, k>=4 controls, EVERY control pattern: the Gallina model denotes, for "
+          "every state of controls, ancillas and target, 'flip target iff the controls match' - ancillas restored whatever they hold "
+          "(C05_vchain_exact, C05_vchain_pattern, and C05_vchain_placed for any pairwise-distinct placement); relative-phase mode = that permutation "
+          "times a +-1 diagonal (C05_vchain_relphase); (ii) LinearMcx with k>=6 controls and every control pattern: the model's four alternating "
+          "V-chains on their exact qubit lists are the exact MCX, borrowed ancilla restored for every input state (C05_linear_mcx, via Lemma 9 "
+          "C05_lemma9); (iii) majority: the degree list is translated from qclib/gates/majority.py on every run and proved, for all n and all inputs, "
+          "to flip the target iff at least half of the controls are 1 (C05_majority, C05_majority_degrees). Tie: gate-by-gate comparison, inside Coq, of the "
+          "models with the flattened definitions for k up to 16/48 (vchain: all flags, 1-3 targets, patterns) and 24/64 (LinearMcx) - instances of >100 qubits "
+          "that no simulator reaches; translated degree list executed against CPython for n<=64/128. Direct evaluation by random-state evolution supplies replays. "
+          "PARTIAL: multi-target fans, the action_only tail and the <=5-control branches that are single Qiskit gates are corresponded and evaluated, not proved."),
+    note="Modelled, not verified: Qiskit's x/cx/ccx/c3x/c4x/mcx/u gates and circuit composition (append of sub-circuits on qubit lists, mirrored by `relabel`).",
+    technique="Coq proof (monomial-operator sandwich induction; placement extension; Lemma-9 composition; X-conjugation; Pascal/triangular induction) + translator-regenerated model + gate-list correspondence in Coq (vm_compute) + numpy state evolution",
     design_ref="DESIGN.md section 4, C05")
